@@ -503,7 +503,11 @@ class TextMatcher:
         elif isinstance(prop, str):
             matches = self.collation(self.text, prop, "equals")
         elif isinstance(prop, vCategory):
-            matches = any([self.match(cat) for cat in prop.cats])
+            # Compare each category without applying negate-condition to it:
+            # the negation belongs to the text-match as a whole.
+            matches = any(
+                [self.collation(self.text, str(cat), "equals") for cat in prop.cats]
+            )
         else:
             logging.warning(
                 "potentially unsupported value in text match search: " + repr(prop)
